@@ -114,6 +114,14 @@ def gen_scenario(r, cls: str) -> Dict[str, Any]:
         sc["pair_prec"]["ETH/BTC"] = [bp_, qp_]
         if i not in sc["explicit_pair_info"]:
             sc["explicit_pair_info"].append(i)
+    elif len(pairs) >= 2 and cls != "ample" and r.random() < 0.3:
+        # two pairs share their quote symbol but round it differently (BTC/USD to 2 decimals, ETH/USD to 4)
+        i = r.randrange(1, len(pairs))
+        b_, q_ = pairs[i]
+        qp_ = r.choice([p_ for p_ in (0, 2, 4, 6) if p_ != symbols[q_]])
+        sc["pair_prec"][f"{b_}/{q_}"] = [symbols[b_], qp_]
+        if i not in sc["explicit_pair_info"]:
+            sc["explicit_pair_info"].append(i)
     quote = "USD"
 
     # ---- configuration -----------------------------------------------------------------
@@ -130,6 +138,9 @@ def gen_scenario(r, cls: str) -> Dict[str, Any]:
                 "default": _cond(r, symbols, quote) if r.random() < 0.85 else None,
                 "per_symbol": {s: _cond(r, symbols, quote, s) for s in symbols if r.random() < 0.35}}
     sc["fee"], sc["liq"], sc["lend"] = fee, liq, lend
+    if cls == "ample" and fee is None and r.random() < 0.3:
+        # a custom fee scheme (public FeeStrategy interface) that charges buys in the asset they receive
+        sc["base_fee_pct"] = r.choice(["0.1", "1", "10"])
     sc["max_concurrent"] = r.choice([1, 2, 3, 50, 50])
 
     # ---- bars --------------------------------------------------------------------------
@@ -209,6 +220,7 @@ def gen_scenario(r, cls: str) -> Dict[str, Any]:
                             a["amount"] = _s(D(a["amount"]) + unit(newp) * r.randint(1, 99))
                             a["finer"] = True
     sc["actions"] = actions
+    sc["no_order_events"] = cls in ("random", "margin") and r.random() < 0.12
     # a few actions issued from order-event handlers and scheduled jobs
     sc["on_order_event"] = []
     if cls not in ("long", "long_q") and r.random() < 0.5:
